@@ -94,7 +94,8 @@ func rewinder(fn *ssa.Function) bool {
 func runC06(c *Ctx) {
 	p := c.Progs["mod"]
 	f := c.need(p, "C06.A", "agent/utils.postResponseWithRetries")
-	c.Rule("C06.A", "at most three upload attempts", 2)
+	c.Rule("C06.A", "at most three upload attempts", 3)
+	ruleOneSendPerRoundTrip(c, p, "C06.A")
 	c.Rule("C06.S", "every retry edge passes a successful rewind", 3)
 	c.Rule("C06.R", "the rewind refuses exactly when the prefix may be incomplete", 9)
 	c.Rule("C06.X", "the replayed body cannot be raced or robbed by a superseded attempt", 8)
@@ -613,7 +614,7 @@ func c06Unblock(c *Ctx, p *Prog) {
 		for _, op := range ChanOpsOf(wh) {
 			if op.Kind == "send" && op.InSelect {
 				for k, st := range op.Select.States {
-					if k != op.State && st.Dir == types.RecvOnly && isDoneChan(st.Chan) {
+					if k != op.State && st.Dir == types.RecvOnly && (isDoneChan(st.Chan) || doneUnlessRequestAbsent(st.Chan)) {
 						ok = true
 					}
 				}
@@ -894,4 +895,38 @@ func cvOr(cv constant.Value, ok bool) constant.Value {
 		return constant.MakeInt64(-999)
 	}
 	return cv
+}
+
+// doneUnlessRequestAbsent: v is phi(nil, <request context>.Done()) where the nil edge is taken
+// exactly when the writer's request field is nil (no request: nothing could cancel the wait, and
+// the agent never builds a writer without one).
+func doneUnlessRequestAbsent(v ssa.Value) bool {
+	ph, ok := v.(*ssa.Phi)
+	if !ok || len(ph.Edges) != 2 {
+		return false
+	}
+	sawDone, sawNil := false, false
+	for k, e := range ph.Edges {
+		if IsNilConst(e) {
+			cond, truth, okc := edgeCondition(ph.Block().Preds[k], ph.Block(), 0)
+			if !okc {
+				return false
+			}
+			_, fld, isF := FieldLoad(cond.X)
+			if !isF || fld != "r" || !IsNilConst(cond.Y) {
+				return false
+			}
+			// the edge is taken when r == nil
+			if !((cond.Op == token.EQL && truth) || (cond.Op == token.NEQ && !truth)) {
+				return false
+			}
+			sawNil = true
+			continue
+		}
+		if !isDoneChan(e) {
+			return false
+		}
+		sawDone = true
+	}
+	return sawDone && sawNil
 }
